@@ -11,5 +11,7 @@ MCCfgsSmall == {"Co60", "Mo100.2.1", "Zr96.0.20"}
 \* one nuclide, level and mode (2nubb of Nd148 to the 1921 keV level: 7 keV are left, the tables have 7 bins) under three energy-sum windows: whatever an
 \* initialisation keeps for the next one is keyed on everything the tables depend on, the window included
 MCCfgsWindow == {"Nd148.5.4", "Nd148.5.4@0.002:0.005", "Nd148.5.4@0.003:0.0065"}
+\* the three nuclides of the quadruple-beta mode: one mode, three different energy releases
+MCCfgsFour == {"Zr96.0.20", "Xe136.0.20", "Nd150.0.20"}
 MCCfgsMid == {"Co60", "Bi207", "Mo100.2.1", "Ge76.2.1", "Nd150.3.7"}
 =============================================================================
